@@ -127,6 +127,35 @@ struct Shared {
 pub struct Eng {
     e: PPGEvaluator<vs::StrategyForVerif>,
     pub calls: u32,
+    disk: Option<Rc<Shared>>,
+}
+
+// ---- bridge trace: every engine call with its result and the query results after it, so that the
+// ---- same evaluation can be replayed call by call through the real PyO3 class from python
+// ---- (tools/pybridge_replay.py). Off unless bridge_trace_enable(true) was called on this thread.
+thread_local! {
+    static BRIDGE_ON: std::cell::Cell<bool> = const { std::cell::Cell::new(false) };
+    static BRIDGE_CALLS: RefCell<Vec<serde_json::Value>> = const { RefCell::new(Vec::new()) };
+    static BRIDGE_EVALS: RefCell<Vec<String>> = const { RefCell::new(Vec::new()) };
+}
+pub fn bridge_trace_enable(on: bool) {
+    BRIDGE_ON.with(|b| b.set(on));
+    BRIDGE_CALLS.with(|c| c.borrow_mut().clear());
+}
+pub fn bridge_trace_take() -> Vec<String> {
+    BRIDGE_EVALS.with(|e| std::mem::take(&mut *e.borrow_mut()))
+}
+fn bridge_on() -> bool {
+    BRIDGE_ON.with(|b| b.get())
+}
+fn res_kind(r: &CallRes) -> &'static str {
+    match r {
+        CallRes::Ok => "ok",
+        CallRes::Api(_) => "api",
+        CallRes::Internal(_) => "internal",
+        CallRes::Contract => "contract",
+        CallRes::Panic(_) => "panic",
+    }
 }
 
 fn panic_msg(p: Box<dyn std::any::Any + Send>) -> String {
@@ -151,7 +180,31 @@ fn conv(r: Result<Result<(), PPGEvaluatorError>, Box<dyn std::any::Any + Send>>)
 
 impl Eng {
     pub fn new(e: PPGEvaluator<vs::StrategyForVerif>) -> Self {
-        Eng { e, calls: 0 }
+        Eng { e, calls: 0, disk: None }
+    }
+    /// bridge trace: one record per engine call (mutating calls and is_finished, which has a side effect)
+    fn rec(&self, call: &str, job: Option<&str>, arg: Option<&str>, res: &str) {
+        if !bridge_on() {
+            return;
+        }
+        if call == "fin" {
+            BRIDGE_CALLS.with(|c| c.borrow_mut().push(serde_json::json!({"c": call, "r": res})));
+            return;
+        }
+        let disk: Vec<String> = match &self.disk {
+            Some(sh) => sh.disk.borrow().keys().cloned().collect(),
+            None => Vec::new(),
+        };
+        let q = if res == "panic" || res == "internal" {
+            serde_json::Value::Null
+        } else {
+            serde_json::json!({
+                "ready": self.ready(), "next": self.next_ready(), "running": self.running(),
+                "cleanup": self.cleanup(), "uf": self.upstream_failed(),
+            })
+        };
+        let v = serde_json::json!({"c": call, "j": job, "a": arg, "r": res, "disk": disk, "q": q});
+        BRIDGE_CALLS.with(|c| c.borrow_mut().push(v));
     }
     pub fn add_node(&mut self, id: &str, k: JobKind) {
         self.e.add_node(id, k);
@@ -161,43 +214,73 @@ impl Eng {
     }
     pub fn startup(&mut self) -> CallRes {
         self.calls += 1;
-        conv(catch_unwind(AssertUnwindSafe(|| self.e.event_startup())))
+        let r = conv(catch_unwind(AssertUnwindSafe(|| self.e.event_startup())));
+        self.rec("startup", None, None, res_kind(&r));
+        r
     }
     pub fn now_running(&mut self, id: &str) -> CallRes {
         self.calls += 1;
-        conv(catch_unwind(AssertUnwindSafe(|| self.e.event_now_running(id))))
+        let r = conv(catch_unwind(AssertUnwindSafe(|| self.e.event_now_running(id))));
+        self.rec("start", Some(id), None, res_kind(&r));
+        r
     }
     pub fn success(&mut self, id: &str, rec: String) -> CallRes {
         self.calls += 1;
-        conv(catch_unwind(AssertUnwindSafe(|| self.e.event_job_finished_success(id, rec))))
+        let rec_copy = rec.clone();
+        let r = conv(catch_unwind(AssertUnwindSafe(|| self.e.event_job_finished_success(id, rec))));
+        self.rec("ok", Some(id), Some(&rec_copy), res_kind(&r));
+        r
     }
     pub fn failure(&mut self, id: &str) -> CallRes {
         self.calls += 1;
-        conv(catch_unwind(AssertUnwindSafe(|| self.e.event_job_finished_failure(id))))
+        let r = conv(catch_unwind(AssertUnwindSafe(|| self.e.event_job_finished_failure(id))));
+        self.rec("fail", Some(id), None, res_kind(&r));
+        r
     }
     pub fn cleanup_done(&mut self, id: &str) -> CallRes {
         self.calls += 1;
-        conv(catch_unwind(AssertUnwindSafe(|| self.e.event_job_cleanup_done(id))))
+        let r = conv(catch_unwind(AssertUnwindSafe(|| self.e.event_job_cleanup_done(id))));
+        self.rec("ack", Some(id), None, res_kind(&r));
+        r
     }
     pub fn reconsider_all(&mut self) -> CallRes {
         self.calls += 1;
-        conv(catch_unwind(AssertUnwindSafe(|| self.e.reconsider_all_jobs())))
+        let r = conv(catch_unwind(AssertUnwindSafe(|| self.e.reconsider_all_jobs())));
+        self.rec("reconsider", None, None, res_kind(&r));
+        r
     }
     pub fn abort(&mut self) -> CallRes {
         self.calls += 1;
-        conv(catch_unwind(AssertUnwindSafe(|| self.e.abort_remaining())))
+        let r = conv(catch_unwind(AssertUnwindSafe(|| self.e.abort_remaining())));
+        self.rec("abort", None, None, res_kind(&r));
+        r
     }
     pub fn is_finished(&mut self) -> Result<bool, String> {
-        catch_unwind(AssertUnwindSafe(|| self.e.is_finished())).map_err(panic_msg)
+        let r = catch_unwind(AssertUnwindSafe(|| self.e.is_finished())).map_err(panic_msg);
+        match &r {
+            Ok(b) => self.rec("fin", None, None, if *b { "true" } else { "false" }),
+            Err(_) => self.rec("fin", None, None, "panic"),
+        }
+        r
     }
     pub fn new_history(&self) -> Result<BTreeMap<String, String>, CallRes> {
-        match catch_unwind(AssertUnwindSafe(|| self.e.new_history())) {
+        let r: Result<BTreeMap<String, String>, CallRes> = match catch_unwind(AssertUnwindSafe(|| self.e.new_history())) {
             Ok(Ok(h)) => Ok(h.into_iter().collect()),
             Ok(Err(PPGEvaluatorError::APIError(s))) => Err(CallRes::Api(s)),
             Ok(Err(PPGEvaluatorError::InternalError(s))) => Err(CallRes::Internal(s)),
             Ok(Err(PPGEvaluatorError::EphemeralChangedOutput { .. })) => Err(CallRes::Contract),
             Err(p) => Err(CallRes::Panic(panic_msg(p))),
+        };
+        if bridge_on() {
+            match &r {
+                Ok(h) => {
+                    let txt = serde_json::to_string(h).unwrap_or_default();
+                    self.rec("hist", None, Some(&txt), "ok")
+                }
+                Err(e) => self.rec("hist", None, None, res_kind(e)),
+            }
         }
+        r
     }
     fn sorted(h: impl IntoIterator<Item = String>) -> Vec<String> {
         let mut v: Vec<String> = h.into_iter().collect();
@@ -336,7 +419,11 @@ pub fn evaluate(sc_cfg: &Config, defs: &[Def], world: &mut World, plan: &EvalPla
             }),
         }
     };
-    let mut eng = Eng { e: PPGEvaluator::new_with_history(hist, strategy), calls: 0 };
+    let mut eng = Eng { e: PPGEvaluator::new_with_history(hist, strategy), calls: 0, disk: Some(shared.clone()) };
+    let mut bridge_decl: (Vec<String>, Vec<(String, String)>) = (Vec::new(), Vec::new());
+    if bridge_on() {
+        BRIDGE_CALLS.with(|c| c.borrow_mut().clear());
+    }
     {
         // declaration order
         let mut nodes: Vec<usize> = (0..n).collect();
@@ -358,9 +445,11 @@ pub fn evaluate(sc_cfg: &Config, defs: &[Def], world: &mut World, plan: &EvalPla
                 Kind::Ephemeral => JobKind::Ephemeral,
             };
             eng.e.add_node(&gv.jobs[i].id, k);
+            bridge_decl.0.push(gv.jobs[i].id.clone());
         }
         for (d, u) in edges {
             eng.e.depends_on(&gv.jobs[d].id, &gv.jobs[u].id);
+            bridge_decl.1.push((gv.jobs[d].id.clone(), gv.jobs[u].id.clone()));
         }
     }
 
@@ -798,6 +887,27 @@ pub fn evaluate(sc_cfg: &Config, defs: &[Def], world: &mut World, plan: &EvalPla
         world.history = h.clone();
     }
     vs::enable_transition_log(false);
+    if bridge_on() {
+        let calls = BRIDGE_CALLS.with(|c| std::mem::take(&mut *c.borrow_mut()));
+        let jobs: Vec<serde_json::Value> = (0..n)
+            .map(|i| {
+                serde_json::json!({
+                    "id": gv.jobs[i].id, "kind": format!("{:?}", gv.jobs[i].kind), "parts": gv.jobs[i].parts,
+                    "consumed": gv.jobs[i].consumed_names, "names": gv.names(sc_cfg, i),
+                })
+            })
+            .collect();
+        let outputs: BTreeMap<String, Option<String>> =
+            (0..n).map(|i| (gv.jobs[i].id.clone(), out.job_outputs[i].clone())).collect();
+        let v = serde_json::json!({
+            "cmp": format!("{:?}", sc_cfg.cmp), "names_mode": format!("{:?}", sc_cfg.names), "hash_seed": plan.hash_seed,
+            "history": out.h_in, "disk0": out.disk_before.keys().collect::<Vec<_>>(),
+            "jobs": jobs, "nodes": bridge_decl.0, "edges": bridge_decl.1,
+            "calls": calls, "history_out": out.h_out, "outputs": outputs,
+            "engine_error": out.engine_error,
+        });
+        BRIDGE_EVALS.with(|e| e.borrow_mut().push(v.to_string()));
+    }
     out
 }
 
